@@ -144,6 +144,9 @@ func C05Csv2Units() {
 	a.IsTarget, b.IsTarget, c.IsTarget = tgt == 0, tgt == 1, tgt == 2
 	decl := &FileDecl{Delimiter: "|", Records: []*RecordDecl{a, b, c}}
 	zz.Assume((&validateCtx{}).validateFileDecl(decl) == nil)
+	if zz.Param("FREEZE", 0) == 1 {
+		zz.Freeze(decl)
+	}
 	r := NewReader("t", &zzChunkReader{data: t.input, failAt: -1}, decl, nil)
 
 	// reference: greedy, in declaration order
